@@ -239,3 +239,50 @@ def sim_replay(prop, path, spec, keep_sleep=False, norm=None):
         print(f"VIOLATION property={prop} replay={path}")
         return 1
     return 0
+
+
+def binding_selftest(wd, scenarios, spec="Trace_Rtps", norm=None):
+    """Demonstrates that the trace specification really constrains the recorded executions: a recorded trace is accepted,
+    the same trace with ONE field corrupted / one event removed is rejected with the expected rule. Raises ToolError
+    otherwise (a vacuous trace specification would accept the corrupted traces)."""
+    import copy
+    runs = run_sim_batch(scenarios, wd, "selftest", jobs=4)
+    events = []
+    for run in runs:
+        for e in (norm or tracenorm.normalise)(run or []):
+            if e["ev"] in ("Other", "Sleep"):
+                continue
+            events.append(e)
+
+    def check(tag, evs):
+        path = os.path.join(wd, f"selftest.{tag}.ndjson")
+        with open(path, "w") as g:
+            for e in evs:
+                g.write(json.dumps(e, separators=(",", ":")) + "\n")
+        res = validate(spec, path, wd, "st_" + tag)
+        return sorted(set(v["rule"] for v in res["violations"]))
+
+    base = check("base", events)
+    if base:
+        raise ToolError(f"binding self test: the unmodified trace is rejected: {base}")
+    take_idx = next(k for k, e in enumerate(events) if e["ev"] == "Take" and len(e.get("samples", [])) >= 1)
+    results = {}
+    # 1. a sample presented twice
+    m = copy.deepcopy(events)
+    m[take_idx]["samples"].append(copy.deepcopy(m[take_idx]["samples"][0]))
+    results["duplicated sample in a take"] = check("dup", m)
+    # 2. a corrupted payload
+    m = copy.deepcopy(events)
+    m[take_idx]["samples"][0]["ok"] = 0
+    results["corrupted payload flag"] = check("corrupt", m)
+    # 3. a presented sample that was never written
+    m = copy.deepcopy(events)
+    m[take_idx]["samples"][0]["seq"] = 9999
+    results["sample that was never written"] = check("phantom", m)
+    # 4. a write whose return is removed (the DATA on the wire is then not justified by the API history)
+    m = [e for k, e in enumerate(events) if not (e["ev"] in ("WriteCall", "WriteRet") and k < take_idx and e.get("seq") == 1)]
+    results["write removed from the history"] = check("nowrite", m)
+    missed = [k for k, v in results.items() if not v]
+    if missed:
+        raise ToolError(f"binding self test: corrupted traces were ACCEPTED by {spec}: {missed}")
+    return results
